@@ -73,12 +73,16 @@ def run_server_case(case, watchdog):
                 w.sock = nonlocal_b[0]
             w.read_reply(timeout=2)
             k = case['after']           # number of script steps completed before the stall
-            for step in SERVER_SCRIPT[:k]:
-                nonlocal_b[0].sendall(step)
-                if step.endswith(b'\r\n') and step not in (SERVER_SCRIPT[4],):
-                    w.read_reply(timeout=2)
-            rest = SERVER_SCRIPT[k] if k < len(SERVER_SCRIPT) else b'NOOP\r\n'
             mode = case['mode']
+            rest = SERVER_SCRIPT[k] if k < len(SERVER_SCRIPT) else b'NOOP\r\n'
+            steps = list(SERVER_SCRIPT[:k])
+            if mode == 'pipelined-partial' and steps:
+                # the beginning of the next line arrives in the same segment as the end of the previous command
+                steps[-1] = steps[-1] + rest[:max(1, len(rest) // 2)].rstrip(b'\r\n')
+            for step in steps:
+                nonlocal_b[0].sendall(step)
+                if b'\r\n' in step and not step.startswith(SERVER_SCRIPT[4][:8]):
+                    w.read_reply(timeout=2)
             if mode == 'silent':
                 pass
             elif mode == 'midline':
@@ -134,7 +138,9 @@ def run_server_case(case, watchdog):
 
 def server_cases():
     for after in range(0, len(SERVER_SCRIPT)):
-        for mode in ('silent', 'midline', 'trickle'):
+        for mode in ('silent', 'midline', 'trickle', 'pipelined-partial'):
+            if mode == 'pipelined-partial' and after == 0:
+                continue
             yield {'family': 'server', 'after': after, 'mode': mode}
             if mode == 'silent' and after in (0, 2, 4):
                 yield {'family': 'server', 'after': after, 'mode': mode, 'tls': True}
@@ -295,6 +301,94 @@ def run_client_case(case, watchdog):
     return out, case['stage'] not in ('connect', 'banner')
 
 
+def run_client_idle_case(case, watchdog):
+    """A first message succeeds; while the connection is idle the peer sends an unfinished reply and goes silent."""
+    peers = []
+
+    def creator(address):
+        a, b = gsocket.socketpair()
+
+        def serve():
+            try:
+                f = b.makefile('rb')
+                b.sendall(b'220 peer\r\n')
+                ndata = 0
+                while True:
+                    line = f.readline()
+                    if not line:
+                        return
+                    verb = line.split(b' ')[0].strip().upper()
+                    if verb in (b'EHLO', b'LHLO'):
+                        b.sendall(b'250-peer\r\n250 PIPELINING\r\n' if case['pipelining'] else b'250 peer\r\n')
+                    elif verb == b'DATA':
+                        b.sendall(b'354 go\r\n')
+                        while True:
+                            l = f.readline()
+                            if not l or l == b'.\r\n':
+                                break
+                        b.sendall(b'250 2.0.0 queued\r\n')
+                        ndata += 1
+                        if ndata == 1:
+                            gevent.sleep(0.05)
+                            b.sendall(case['partial'].encode())
+                            gevent.sleep(3600)
+                    elif verb == b'QUIT':
+                        b.sendall(b'221 bye\r\n')
+                        return
+                    else:
+                        b.sendall(b'250 2.0.0 ok\r\n')
+            except Exception:
+                pass
+        peers.append((gevent.spawn(serve), a, b))
+        return a
+    cls = StaticLmtpRelay if case['kind'] == 'lmtp' else StaticSmtpRelay
+    relay = cls('peer.example', 25, socket_creator=creator, context=client_ctx(), ehlo_as='relay.example', pool_size=1,
+                connect_timeout=CMD_T, command_timeout=CMD_T, data_timeout=DATA_T, idle_timeout=2.0)
+    out = []
+    desc = repr(case)
+    t0 = time.time()
+    try:
+        first = relay.attempt(c11.make_env(1, 'a'), 0)
+        gevent.sleep(0.12)
+        got = AsyncResult()
+
+        def go():
+            try:
+                got.set(('ok', relay.attempt(c11.make_env(1, 'b'), 0)))
+            except BaseException as e:
+                got.set(('exc', e))
+        g = gevent.spawn(go)
+        g.join(timeout=watchdog)
+        if not got.ready():
+            out.append(('C14:relay-attempt-outlives-timeouts:idle-partial-reply',
+                        '%s: second attempt on the reused connection still blocked after %.1f s' % (desc, time.time() - t0)))
+            g.kill(block=False)
+        else:
+            kind, res = got.get()
+            if kind == 'exc' and not isinstance(res, RelayError):
+                out.append(('C14:stalled-attempt-not-transient:idle-partial-reply', '%s: %r' % (desc, res)))
+    except RelayError:
+        pass
+    finally:
+        kill_relay(relay)
+        for g_, a, b in peers:
+            if not g_.dead:
+                g_.kill(block=False)
+            for s_ in (a, b):
+                try:
+                    s_.close()
+                except Exception:
+                    pass
+    return out, True
+
+
+def client_idle_cases():
+    for kind in ('smtp', 'lmtp'):
+        for pipelining in (True, False):
+            for partial in ('421 4.4.2 Connection tim', '4', '421-first line\r\n421 secon'):
+                yield {'family': 'client-idle', 'kind': kind, 'pipelining': pipelining, 'partial': partial}
+
+
 def client_cases():
     for kind in ('smtp', 'lmtp'):
         for pipelining in (True, False):
@@ -403,11 +497,12 @@ def other_cases():
         yield {'family': 'http', 'mode': mode}
 
 
-RUN = {'server': run_server_case, 'client': run_client_case, 'pipe': run_pipe_case, 'http': run_http_case}
+RUN = {'server': run_server_case, 'client': run_client_case, 'client-idle': run_client_idle_case, 'pipe': run_pipe_case,
+       'http': run_http_case}
 
 
 def run_shard(ctx):
-    cases = list(server_cases()) + list(client_cases()) + list(other_cases())
+    cases = list(server_cases()) + list(client_cases()) + list(client_idle_cases()) + list(other_cases())
     if ctx.thorough:
         cases = cases * 3
     mine = [(i, c) for i, c in enumerate(cases) if ctx.mine(i)]
@@ -432,7 +527,7 @@ def replay(case):
     try:
         if fam == 'server':
             case = dict(case, after=max(0, min(len(SERVER_SCRIPT) - 1, int(case['after']))))
-            if case.get('mode') not in ('silent', 'midline', 'trickle'):
+            if case.get('mode') not in ('silent', 'midline', 'trickle', 'pipelined-partial'):
                 return []
         elif fam == 'client':
             if case.get('stage') not in CLIENT_STAGES or case.get('kind') not in ('smtp', 'lmtp') or case.get('mode') not in ('silent', 'trickle'):
@@ -440,6 +535,9 @@ def replay(case):
             case = dict(case, nrcpt=max(1, min(2, int(case.get('nrcpt', 1)))), pipelining=bool(case.get('pipelining')))
         elif fam == 'http' and case.get('mode') not in ('silent', 'trickle', 'trickle-headers'):
             return []
+        elif fam == 'client-idle':
+            if case.get('kind') not in ('smtp', 'lmtp') or not isinstance(case.get('partial'), str) or case['partial'].endswith('\n'):
+                return []
         return RUN[fam](case, 5.0)[0]
     except (KeyError, ValueError, TypeError):
         return []
